@@ -40,7 +40,7 @@ Print Assumptions C15_stop_is_not_an_error.
    count, unnest, update), every answer pattern w of the writer (in particular: refusing its k-th write, for every k) and
    every expression semantics, the calls it receives are, in order,
        [set_header]  write* (all answered True)  [one write answered False]  finish      after a run without error
-       [set_header]  write* (all answered True)  [one write answered False]              after a failed run
+       [set_header]  write* (all answered True)                                          after a failed run
    i.e. set_header at most once and before any write, no write after one returned False, finish exactly once - as the last
    call - after a successful run and never after a failure. *)
 Theorem C15_protocol :
@@ -52,13 +52,20 @@ Theorem C15_protocol :
                 /\ (hs = [] \/ exists h, hs = [EvHeader h])
                 /\ Forall (fun e => exists r, e = EvWrite r true) ws
                 /\ (fl = [] \/ exists r, fl = [EvWrite r false])
-    | Some _ => (exists hs ws, rev (s_trace (o_chain o)) = hs ++ ws
-                   /\ (hs = [] \/ exists h, hs = [EvHeader h]) /\ Forall (fun e => exists r, e = EvWrite r true) ws)
-                \/ (exists hs ws r, rev (s_trace (o_chain o)) = hs ++ ws ++ [EvWrite r false]
-                   /\ (hs = [] \/ exists h, hs = [EvHeader h]) /\ Forall (fun e => exists r, e = EvWrite r true) ws)
+    | Some _ => exists hs ws, rev (s_trace (o_chain o)) = hs ++ ws
+                   /\ (hs = [] \/ exists h, hs = [EvHeader h]) /\ Forall (fun e => exists r, e = EvWrite r true) ws
     end.
 Proof. intros expr eval w q hdr A B Hst. exact (run_protocol expr eval w q Hst hdr A B). Qed.
 Print Assumptions C15_protocol.
+
+(* "returns without error": a run in which the consumer refused a write never ends in an error (the refusal stops the
+   loop, and nothing is evaluated afterwards) *)
+Theorem C15_refusal_is_not_an_error :
+  forall (expr : Type) (eval : env -> expr -> res val) (w : nat -> bool) (q : query expr) hdr A B r,
+    static_check q = None ->
+    In (EvWrite r false) (s_trace (o_chain (run eval w q hdr A B))) -> o_error (run eval w q hdr A B) = None.
+Proof. intros expr eval w q hdr A B r Hst. exact (refusal_is_not_an_error expr eval w q Hst hdr A B r). Qed.
+Print Assumptions C15_refusal_is_not_an_error.
 
 (* THE PREFIX CLAUSE at the engine level: a consumer (user writer) that refuses its k-th write has been handed, and has
    accepted, exactly the first k rows of the output it would have received had it never refused - for EVERY query
